@@ -117,7 +117,34 @@ def check_c11(pid, tier):
     return 1 if violations else 0
 
 
-CHECKS = {"C11": check_c11}
+# ---- C18 --------------------------------------------------------------------------------------------
+
+def check_c18(pid, tier):
+    t0 = time.time()
+    sd = vlib.seed()
+    binary = vlib.go_build_test("comp")
+    work = vlib.scratch("c18")
+    quick = tier == "quick"
+    cases = os.path.join(work, "cases.ndjson")
+    fh = open(cases, "w")
+    r = vlib.run_tlc("Authorizing", "INIT Init\nNEXT Next\nCONSTANTS\n Depth = %d\nINVARIANTS AnyAlgebra Emit\n" % (1 if quick else 2),
+                     raw_sink=lambda m, raw: fh.write(raw + "\n"), timeout=3000)
+    fh.close()
+    vlib.require_model_ok(r, "Authorizing")
+    rc, out = vlib.run_harness(binary, "TestAuth", {"COMP_CASES": cases, "COMP_OUT": work}, timeout=3000)
+    if rc != 0:
+        raise Broken("auth harness failed:\n" + out[-3000:])
+    n_events, rejects, vstates = validate_obs("AuthContractTrace", os.path.join(work, "auth.ndjson"))
+    violations = report(pid, sd, rejects)
+    cov = {"states": r.distinct, "transitions": max(r.generated, r.distinct), "traces_validated_against_impl": n_events, "cases": r.distinct,
+           "exhaustive": True, "trace_validator_states": vstates, "samples": [json.loads(open(cases).readline())]}
+    vlib.write_evidence(pid, tier, "model_checking", cov, time.time() - t0, violations,
+                        ["authorizers are leaf tables over two instance names (the repository's static authorizer for allow/deny tables, a scripted one when a member fails) combined with the real NewAnyAuthorizer",
+                         "the wiring in cmd/bb_storage/main.go (which authorizer guards which operation) is not exercised"])
+    return 1 if violations else 0
+
+
+CHECKS = {"C11": check_c11, "C18": check_c18}
 
 
 def check(pid, tier, replay=None):
